@@ -353,6 +353,35 @@ func checkC16(c *vlib.Ctx) (string, string) {
 			ck.Report(c16Case{Cfg: l, Req: *r, Seq: seq}, f)
 		}
 	})
+	// every request of the alphabet with every request attribute that is not a header (protocol version, TLS, a
+	// context that is already cancelled or past its deadline ...): a failing preflight fails the same way
+	var reqs []vlib.Req
+	for _, o := range []string{"https://a.example", "https://denied.example"} {
+		for _, am := range []string{"GET", "PUT", "DELETE"} {
+			for _, ah := range [][]string{nil, {"x-a"}, {"x-z"}, {"authorization,x-a"}} {
+				for _, ap := range [][]string{nil, {"true"}, {"false"}} {
+					hdr := map[string][]string{"Origin": {o}, "Access-Control-Request-Method": {am}}
+					if ah != nil {
+						hdr["Access-Control-Request-Headers"] = ah
+					}
+					if ap != nil {
+						hdr["Access-Control-Request-Private-Network"] = ap
+					}
+					reqs = append(reqs, vlib.Req{Method: "OPTIONS", Hdr: hdr})
+				}
+			}
+		}
+	}
+	pa := vlib.Product{Sizes: []int{len(cfgs), len(reqs), len(vlib.Attrs)}}
+	c.ParRange(pa.Count(), 64, "C16 request attributes", func(i int64) {
+		var tmp [4]int
+		ix := pa.At(i, tmp[:0])
+		r := reqs[ix[1]]
+		r.Attr = vlib.Attrs[ix[2]]
+		c.Transitions.Add(2)
+		ck.Try(c16Case{Cfg: cfgs[ix[0]], Req: r, Route: int(i % nRoutes)})
+	})
+	c.States.Add(pa.Count())
 	// large allowed list, requested names spread over many field lines (1..70 lines, one or two names each, with up
 	// to 16 empty lines): the answer names what was asked for, never the configured list
 	var bigNames []string
